@@ -986,8 +986,9 @@ class HelicityDecay(AmpDecay):
             all_data = kwargs.get("all_data", {})
             charge = all_data.get("charge_conjugation", None)
             if charge is not None:
+                # H: (n, n_ls, h1, h2)
                 H = tf.where(
-                    charge[..., None, None] > 0, H, H[..., ::-1, ::-1]
+                    charge[..., None, None, None] > 0, H, H[..., ::-1, ::-1]
                 )
         ret = tf.reshape(
             H,
